@@ -783,7 +783,9 @@ def build_trigger(tp_id: str, path: str, line_no: int, args: Dict[str, str], wat
     # ours from here on: the caller may go on using (and changing) what it passed in
     args = dict(args)
     watches = list(watches) if watches is not None else []
-    metrics = list(metrics) if metrics is not None else []
+    # the definitions too, not only the list of them: the caller may edit one, or use its label list for the next one
+    metrics = [MetricDefinition(m.name, m.type, list(m.labels) if m.labels is not None else None, m.expression,
+                                m.namespace, m.help, m.unit) for m in metrics] if metrics is not None else []
 
     stage_ = METHOD_START if METHOD_NAME in args else LINE_START
 
